@@ -158,7 +158,13 @@ func (so srvOpts) options(n *FakeNet, clientBuf int) *rpc.Options {
 	if codec == nil {
 		codec = bytesCodec
 	}
-	return &rpc.Options{NewSocket: n.Socket, NewCodec: codec, HeaderEncoder: so.enc, ClientBufferSize: clientBuf}
+	o := &rpc.Options{NewSocket: n.Socket, NewCodec: codec, HeaderEncoder: so.enc, ClientBufferSize: clientBuf}
+	if len(so.enc) > 5 && so.enc[:5] == "yield" {
+		enc := so.enc
+		o.HeaderEncoder = ""
+		o.NewHeaderEncoder = func() rpc.Encoder { return encoderByName(enc) }
+	}
+	return o
 }
 
 func startListener(n *FakeNet, w *World, addr string, so srvOpts, poll bool) (*rpc.Server, *bool) {
